@@ -42,6 +42,33 @@ CALLER = {
 REQUIRED = {"set": 2, "add": 2, "replace": 2, "append": 2, "prepend": 2, "cas": 3, "get": 1, "gets": 1,
             "get_many": 1, "gets_many": 1, "delete": 1, "incr": 2, "decr": 2, "touch": 1, "flush_all": 0}
 
+# realistic argument values (half of the executions use them, the other half opaque sentinels): a forwarded argument is
+# "the caller's" when it is the same object, or -- for plain values -- equal and of the same type
+TYPED = {"expire": [-1, 0, 1, 2592001, 2 ** 40], "noreply": [True, False, None], "delay": [0, 5], "cas": [b"123", "5", 7]}
+
+
+class _Ctr:
+    n = 0
+
+
+def argval(name, op, variant, typed):
+    _Ctr.n += 1
+    if typed:
+        if name in TYPED:
+            return TYPED[name][(variant // 4 + _Ctr.n) % len(TYPED[name])]
+        if name == "key":
+            return "key%d" % (variant % 5)
+        if name == "keys":
+            return ["ka", "kb"]
+        if name == "value" and op in ("incr", "decr"):
+            return [1, 0, 2 ** 63][(variant // 4) % 3]
+    return object()
+
+
+def same_arg(got, want):
+    return got is want or (type(want) in (int, bool, str, bytes, type(None)) and type(got) is type(want) and got == want)
+
+
 HIT1 = [lambda: object(), lambda: 0, lambda: b"", lambda: False, lambda: (None, None)]
 HITN = [lambda: {"k": object()}, lambda: {"k": None}, lambda: {"a": 0, "b": b""}]
 MISSN = [lambda: {}, lambda: None, lambda: []]
@@ -68,7 +95,7 @@ def make_cache(idx, hit, log, variant, expect):
                 bound = binder(*a, **k)
             except TypeError:
                 bound = None
-            same = bound is not None and all(bound.get(n) is v for n, v in box["expect"].items())
+            same = bound is not None and all(same_arg(bound.get(n), v) for n, v in box["expect"].items())
             if name in READ1:
                 val = HIT1[variant % len(HIT1)]() if hit else None
                 h = val is not None
@@ -90,26 +117,30 @@ def make_cache(idx, hit, log, variant, expect):
     return c
 
 
-def execute_seq(FallbackClient, n, hits, ops, variant):
+def execute_seq(FallbackClient, n, hits, ops, variant, typed=None):
     """several operations one after the other on the SAME FallbackClient (it must stay stateless)"""
     log = []
     caches = None
     fc = None
     for oi, op in enumerate(ops):
-        part = execute(FallbackClient, n, hits, op, variant + oi, reuse=(fc, caches))
+        part = execute(FallbackClient, n, hits, op, variant + oi, reuse=(fc, caches), typed=variant % 4 >= 2 if typed is None else typed)
+        if part.get("retry_typed"):
+            return execute_seq(FallbackClient, n, hits, ops, variant, typed=True)
         fc, caches = part["fc"], part["caches"]
         log += part["ev"]
     return {"h": {"n": n}, "ev": log, "variant": variant, "op": "+".join(ops), "hits": hits}
 
 
-def execute(FallbackClient, n, hits, op, variant, reuse=(None, None)):
+def execute(FallbackClient, n, hits, op, variant, reuse=(None, None), typed=None):
+    if typed is None:
+        typed = variant % 4 >= 2
     log = []
     names = CALLER[op]
     nreq = REQUIRED[op]
     # how many optional arguments the caller passes, and whether by keyword
     nopt = (variant // 2) % (len(names) - nreq + 1)
     by_kw = variant % 2 == 1
-    vals = {nm: object() for nm in names[: nreq + nopt]}
+    vals = {nm: argval(nm, op, variant, typed) for nm in names[: nreq + nopt]}
     if "key" in vals and reuse[0] is not None and getattr(reuse[0], "_verif_key", None) is not None:
         vals["key"] = reuse[0]._verif_key          # the operations of one sequence address the same key
     expect = dict(vals)
@@ -134,12 +165,22 @@ def execute(FallbackClient, n, hits, op, variant, reuse=(None, None)):
     log.insert(0, {"e": "begin", "op": op, "kind": kind})
     pos = [vals[nm] for nm in names[:nreq]]
     opt = names[nreq: nreq + nopt]
-    if by_kw:
-        res = getattr(fc, op)(*pos, **{nm: vals[nm] for nm in opt})
-    else:
-        res = getattr(fc, op)(*(pos + [vals[nm] for nm in opt]))
-    src = 0
-    if kind != "write":
+    raised = False
+    try:
+        if by_kw:
+            res = getattr(fc, op)(*pos, **{nm: vals[nm] for nm in opt})
+        else:
+            res = getattr(fc, op)(*(pos + [vals[nm] for nm in opt]))
+    except Exception:
+        # no cache raised, yet the call did.  With opaque sentinel arguments that may be argument validation: the
+        # execution is repeated with plain values; with plain values it is an outcome the contract judges (src = -1)
+        if not typed:
+            if reuse[0] is None:
+                return execute(FallbackClient, n, hits, op, variant, reuse, typed=True)
+            return {"retry_typed": True}
+        raised, res = True, None
+    src = -1 if raised else 0
+    if kind != "write" and not raised:
         for i, c in enumerate(caches):
             if c.answers and c.answers[-1] is res and log and any(
                     e["e"] == "consult" and e["i"] == i + 1 and e["hit"] for e in log):
